@@ -1,4 +1,4 @@
-"""C06 -- printed expressions denote the tree they were printed from.
+r"""C06 -- printed expressions denote the tree they were printed from.
 
 Outer quantifier: deterministic family of typed expression trees (vlib.corpus.exprs) + trees produced by the real
 SubstituteExpressions and simplify.  Inner quantifier (symbolic, z3): all valuations of the variables.
@@ -18,7 +18,7 @@ from vlib.common import Ctx, pmap, rotate
 from vlib.corpus import exprs as X
 from vlib.fsmt.sem import Sem
 from vlib.fsmt.expr import ExprEnc, NotEncoded, fullparen, is_minus_one
-from vlib.fsmt.solve import check, model_value
+from vlib.fsmt.solve import check, check_robust, model_value
 from vlib.refparse import parse_fortran, parse_c, ast_to_z3, RefParseError
 from vlib import replay as RP
 
@@ -155,7 +155,7 @@ def decide(tree, backend, real_mode='real', want_gap=False):
     cs = list(sem.defined) + [z3.And(v >= -BOUND, v <= BOUND) for v in ivars]
     if real_mode == 'real':
         cs += [z3.And(env[n] >= -BOUND, env[n] <= BOUND) for n in 'xyzs']
-    r, m, dt = check(cs + [t1 != t2], 8000)
+    r, m, dt = check_robust(cs + [t1 != t2], ivars, BOUND, 8000)
     info = {'text': text, 'solver_s': dt}
     if r == 'sat':
         if want_gap and not sem.is_bool(t1) and real_mode == 'real':
